@@ -930,6 +930,8 @@ def run(chk):
 
 # liveness mutants (thorough tier): (name, relpath, old, new, expect_rule)  plain-text edits on a scratch copy
 MUTANTS = [
+    ('LegMeta.conj keeps the signature', 'yastn/tensor/_legs.py', '        return LegMeta(sym=self.sym, s=-self.s, t=self.t, D=self.D, mf=self.mf, legs=legs_conj)', '        return LegMeta(sym=self.sym, s=self.s, t=self.t, D=self.D, mf=self.mf, legs=legs_conj)', 'G6'),
+    ('Z2 component from the parity of the U1 components', 'yastn/sym/sym_U1xU1xZ2.py', '        teff[:, 2] = np.mod(teff[:, 2], 2)', '        teff[:, 2] = np.mod(teff[:, 0] + teff[:, 1], 2)', 'G1'),
     ("Z3 modulus 2", "yastn/sym/sym_Z3.py", "@ signatures), 3)", "@ signatures), 2)", "G2"),
     ("Z2xU1 wrong column", "yastn/sym/sym_Z2xU1.py", "teff[:, 0] = np.mod(teff[:, 0], 2)", "teff[:, 1] = np.mod(teff[:, 1], 2)", "G2"),
     ("Z2 drop sign", "yastn/sym/sym_Z2.py", "np.mod(new_signature * (charges.swapaxes(1, 2) @ signatures), 2)",
